@@ -717,6 +717,10 @@ func (a *Agent) connectivityChecks() { //nolint:cyclop
 		}
 	}
 
+	if verifTakeContact(a, contact) {
+		return
+	}
+
 	timer := time.NewTimer(math.MaxInt64)
 	timer.Stop()
 
